@@ -277,6 +277,16 @@ fn run<F: MathFunction + RenderHints>(case: &Case, cx: &mut Cx) -> CheckResult {
     let ri = flat.index[&root];
     let mut vals = vec![];
     let (mut fills, mut values, mut inside, mut outside) = (0u64, 0u64, 0u64, 0u64);
+    image_access(
+        &image,
+        case.width as usize,
+        case.height as usize,
+        |p| match p.unpack() {
+            DistancePixel::Value(v) => v.to_bits() as u128,
+            DistancePixel::Fill { depth, inside } => (1u128 << 40) | ((depth as u128) << 1) | inside as u128,
+        },
+        cx,
+    )?;
     let data = image.as_slice();
     for j in 0..case.height as usize {
         for i in 0..case.width as usize {
@@ -380,6 +390,88 @@ fn run<F: MathFunction + RenderHints>(case: &Case, cx: &mut Cx) -> CheckResult {
     if fills > 0 && values > 0 && inside > 0 && outside > 0 && ragged {
         cx.ev.nontrivial(case);
     }
+    Ok(())
+}
+
+/// Every way of reading an image must agree with the row-major slice:
+/// `(row, column)` indexing, linear and range indexing, iteration, `map`,
+/// the reported size, and `take` / `build` round trips
+pub fn image_access<P, S>(
+    image: &fidget_raster::Image<P, S>,
+    w: usize,
+    h: usize,
+    bits: impl Fn(&P) -> u128,
+    cx: &mut Cx,
+) -> CheckResult
+where
+    P: Clone + Send,
+    S: fidget_raster::RenderSize + Clone + Sync,
+{
+    let data = image.as_slice();
+    ensure!(
+        image.width() == w && image.height() == h && image.len() == w * h && data.len() == w * h && image.is_empty() == (w * h == 0),
+        "image-size",
+        "image reports {}x{}, len {} (slice {}), is_empty {} for a {w}x{h} render",
+        image.width(),
+        image.height(),
+        image.len(),
+        data.len(),
+        image.is_empty()
+    );
+    let size = image.size();
+    ensure!(
+        size.width() as usize == w && size.height() as usize == h,
+        "image-size",
+        "size() is {}x{} for a {w}x{h} render",
+        size.width(),
+        size.height()
+    );
+    let step = (w * h / 97).max(1);
+    for k in (0..w * h).step_by(step).chain([w * h - 1]) {
+        let (row, col) = (k / w, k % w);
+        ensure!(
+            bits(&image[(row, col)]) == bits(&data[k]) && bits(&image[k]) == bits(&data[k]) && bits(&image[k..=k][0]) == bits(&data[k]),
+            "image-index",
+            "pixel (row {row}, column {col}) of a {w}x{h} image read through (row, col) / linear / range indexing differs from the row-major slice"
+        );
+    }
+    ensure!(
+        image.iter().count() == w * h && image.iter().zip(data).all(|(a, b)| bits(a) == bits(b)) && (&*image).into_iter().count() == w * h,
+        "image-iter",
+        "iter() does not yield the {w}x{h} pixels in row-major order"
+    );
+    let mapped = image.map(|p| bits(p));
+    ensure!(
+        mapped.width() == w && mapped.height() == h && mapped.as_slice().iter().zip(data).all(|(a, b)| *a == bits(b)),
+        "image-map",
+        "map() changed the size or the order of a {w}x{h} image"
+    );
+    let (v, s2) = image.clone().take();
+    ensure!(
+        v.len() == w * h && s2.width() as usize == w && s2.height() as usize == h,
+        "image-take",
+        "take() returned {} pixels and size {}x{}",
+        v.len(),
+        s2.width(),
+        s2.height()
+    );
+    let rebuilt = fidget_raster::Image::build(v.clone(), s2.clone());
+    ensure!(
+        rebuilt.as_ref().map(|r| r.width() == w && r.height() == h && r.len() == w * h).unwrap_or(false),
+        "image-build",
+        "build() rejected or changed the {w}x{h} image it was taken from"
+    );
+    if w * h > 0 {
+        let mut short = v;
+        short.pop();
+        ensure!(
+            fidget_raster::Image::build(short, s2).is_err(),
+            "image-build",
+            "build() accepted {} pixels for a {w}x{h} image",
+            w * h - 1
+        );
+    }
+    cx.ev.count("image_access_checked");
     Ok(())
 }
 
